@@ -65,7 +65,16 @@ type protoCase struct {
 	Cfg   drive.WriterCfg `json:"cfg"`
 	Ops   []drive.WOp     `json:"ops"`
 	WPlan sim.WritePlan   `json:"wplan"`
+	// Prelude: the writer programs this worker process ran just before (other Writers, possibly with sink faults). They
+	// are part of the case because a Writer must not depend on what other Writers did: replay runs them first, and
+	// minimisation drops them when the violation does not need them.
+	Prelude []protoCase `json:"prelude,omitempty"`
 }
+
+// protoHistory holds the last few programs run by this process (see protoCase.Prelude).
+var protoHistory []protoCase
+
+const protoHistoryLen = 6
 
 // ----------------------------------------------------------------------------------------------------------
 // generator
@@ -735,6 +744,13 @@ func hashOps(cfg drive.WriterCfg, ops []drive.WOp, plan sim.WritePlan) uint64 {
 }
 
 func (s protocol) runOne(c *Ctx, cfg drive.WriterCfg, ops []drive.WOp, plan sim.WritePlan, twice bool) *drive.WOutcome {
+	curPrelude = append([]protoCase(nil), protoHistory...)
+	defer func() {
+		protoHistory = append(protoHistory, protoCase{Cfg: cfg, Ops: ops, WPlan: plan})
+		if len(protoHistory) > protoHistoryLen {
+			protoHistory = protoHistory[len(protoHistory)-protoHistoryLen:]
+		}
+	}()
 	oc := drive.RunWrite(cfg, ops, plan, false)
 	c.Steps += int64(oc.Sink.Calls)
 	c.Count("proto.runs", 1)
@@ -764,8 +780,11 @@ func (s protocol) runOne(c *Ctx, cfg drive.WriterCfg, ops []drive.WOp, plan sim.
 	return oc
 }
 
+// curPrelude is the history in front of the run being checked.
+var curPrelude []protoCase
+
 func (s protocol) check(c *Ctx, cfg drive.WriterCfg, ops []drive.WOp, plan sim.WritePlan, oc, second *drive.WOutcome) {
-	cs := protoCase{Cfg: cfg, Ops: ops, WPlan: plan}
+	cs := protoCase{Cfg: cfg, Ops: ops, WPlan: plan, Prelude: curPrelude}
 	name := family(cfg)
 	if oc.Panic != "" {
 		c.Report("C12", "C12.P", "C12.P/"+name+"/"+ops[oc.PanicAt].Op+"/"+oc.Frame+"/"+drive.PanicClass(oc.Panic), fmt.Sprintf("call %d (%s) panicked: %s", oc.PanicAt, ops[oc.PanicAt].Op, oc.Panic), cs)
@@ -923,9 +942,16 @@ func (s protocol) Replay(c *Ctx, caseJSON []byte) error {
 	if len(cs.Ops) == 0 {
 		return fmt.Errorf("empty program")
 	}
+	for _, p := range cs.Prelude {
+		if len(p.Ops) > 0 {
+			drive.RunWrite(p.Cfg, p.Ops, p.WPlan, false)
+		}
+	}
+	curPrelude = cs.Prelude
 	oc := drive.RunWrite(cs.Cfg, cs.Ops, cs.WPlan, false)
 	second := drive.RunWrite(cs.Cfg, cs.Ops, cs.WPlan, false)
 	s.check(c, cs.Cfg, cs.Ops, cs.WPlan, oc, second)
+	curPrelude = nil
 	return nil
 }
 
@@ -938,6 +964,16 @@ func (s protocol) Shrink(caseJSON []byte) [][]byte {
 	emit := func(x protoCase) {
 		if b, err := json.Marshal(x); err == nil {
 			out = append(out, b)
+		}
+	}
+	if len(cs.Prelude) > 0 {
+		x := cs
+		x.Prelude = nil
+		emit(x)
+		for d := range cs.Prelude {
+			y := cs
+			y.Prelude = append(append([]protoCase(nil), cs.Prelude[:d]...), cs.Prelude[d+1:]...)
+			emit(y)
 		}
 	}
 	body := cs.Ops[:len(cs.Ops)-1]
